@@ -48,6 +48,37 @@ theorem after_optional_T' {st : St} {f : Frame} {rest : List Frame} {q : Path} (
     simp only [hp', Bool.false_eq_true, ↓reduceIte, List.flatten_nil, List.foldl_nil, List.nil_append]
     exact ⟨f, h, hns, rfl, by simp [Paced, hns']⟩
 
+/-- the control record of a file whose name is taken by a regular file is acknowledged -/
+theorem feed_C_head_over {st : St} {f : Frame} {rest : List Frame} {q : Path}
+    (hph : st.phase = .start) (hs : st.stack = f :: rest) (htd : f.targisdir = true)
+    (hr : resolve st.fs o.cwd f.targ = some q) (hd : st.fs.isDir q = true)
+    {n : Str} (hn : GoodName n) {om : Nat} {ot : Option Time} {od : Str}
+    (hold : st.fs (q ++ [n]) = some (.file om ot od))
+    (hlen : f.targ.length + n.length + 1 < PCP_PATH_MAX)
+    (m : Nat) (d : Str) (hsz : d.length < 2 ^ 63) (hfit : o.fitsB d.length = true) :
+    ((cRecord m d.length n).foldl (step o) st).out = .ack :: st.out := by
+  obtain ⟨hnl, _, hlen2⟩ := ctlBody_props (m &&& RCP_MODEMASK) d.length hn hsz
+  rw [cRecord_eq, foldl_line st hph cC _ (by decide) hnl hlen2,
+    handleRecord_ctl hs (classify_ctl cC (Or.inl rfl) _ _ hn (and_mask_lt m) hsz)
+      (nameOk_plain _ hn.plain) htd]
+  have hbeq : (cC == cD) = false := by decide
+  simp only [hbeq, Bool.false_eq_true, ↓reduceIte]
+  have hrj := resolve_join hr hd hn.plain hn.short hlen
+  rw [handleFile_over _ _ hrj hold (trailingSlash_join _ hn.plain)]
+  by_cases hd0 : d = []
+  · subst hd0
+    simp only [List.length_nil, Int.natCast_zero, Int.le_refl, ↓reduceIte]
+    have := afterData_over (o := o)
+      (st := { st with fs := st.fs.set (q ++ [n]) (.file (overMode o om (m &&& RCP_MODEMASK)) ot od),
+                       touched := (q ++ [n]) :: st.touched, out := .ack :: st.out })
+      (p := q ++ [n]) (np := joinName f.targ n) (count := 0) (pr := []) (wr := []) (w := []) hfit
+      (set_self _ _ _) (by simp)
+    simp only [List.length_nil, Int.natCast_zero] at this
+    rw [this]
+  · have hpos : 0 < d.length := List.length_pos_iff.2 hd0
+    have hnle : ¬ ((d.length : Int) ≤ 0) := by omega
+    simp only [hnle, ↓reduceIte]
+
 theorem sentinel_cond (so : SOpts) (path : Str) (user : Bool)
     (hsent : path ≠ sentinelName ∨ (so.sentinelFix = true ∧ user = true)) :
     ¬ (path = sentinelName && !(so.sentinelFix && user)) = true := by
@@ -89,6 +120,69 @@ theorem session_dtree (hc : CntOk o) (hnf : o.fsize = none) (so : SOpts) (co : C
     obtain ⟨⟨f1, hat1, hpe1, hf1t⟩, hfs1, hmono1, rs1, hout1, hrs1⟩ := hfed
     rw [faults_none o hnf] at hrs1
     exact ⟨i1, ⟨f1, hat1, hpe1, hf1t⟩, hfs1, hmono1, rs1, hout1, RsI.of_Rs hrs1⟩
+  | over m t a d =>
+    simp only [DOk] at hok
+    obtain ⟨hnm, hnb, ht, ha, hd, om, ot, od, hold⟩ := hok
+    simp only [DTree.src, dBad, expandTree, List.foldl_cons, List.foldl_nil]
+    have hfit : o.fitsB d.length = true := by simp [Opts.fitsB, hnf]
+    obtain ⟨f1, hat1, hpe1, hf1t, hfs1, hpT, hout1, hf1s, hf1m⟩ :=
+      after_optional_T' (o := o) hat hpe so.subsec t a ht ha
+    generalize hst1 : (if o.preserve then [timesRecord so.subsec t a] else []).flatten.foldl (step o) s.st = st1
+      at hat1 hfs1 hout1
+    have hold1 : st1.fs (q ++ [n]) = some (.file om ot od) := by rw [hfs1]; exact hold
+    have hlen1 : f1.targ.length + n.length + 1 < PCP_PATH_MAX := by rw [hf1t]; omega
+    have h1 := feed_C_head_over (o := o) hat1.phase hat1.stack hat1.isdir hat1.res hat1.dir hnm hold1 hlen1 m d hd hfit
+    have h2 := feed_C_over hc hat1.phase hat1.stack hat1.isdir hat1.res hat1.dir hnm hold1 hlen1 m d hd hfit hat1.us
+    have hTeq := tchunks_eq (o := o) so hp t a
+    have hch0 : entryChunks so (.ent path user false m t a d) =
+        (if o.preserve then [timesRecord so.subsec t a] else []) ++ [cRecord m d.length n, d ++ [0]] := by
+      simp only [entryChunks, if_neg hcond, Bool.false_eq_true, if_false, hTeq]
+      rw [← hname]
+      rfl
+    have e : (d ++ [0]).foldl (step o) ((cRecord m d.length n).foldl (step o) st1) =
+        (cRecord m d.length n ++ d ++ [0]).foldl (step o) st1 := by
+      simp only [List.foldl_append]
+    have hp0 : Paced o s.st (entryChunks so (.ent path user false m t a d)) := by
+      rw [hch0, paced_append]
+      refine ⟨hpT, ?_⟩
+      rw [hst1]
+      refine ⟨h1, ?_, trivial⟩
+      rw [e, h2, h1]
+    obtain ⟨c1, c2, _⟩ := clientStep_paced (o := o) so co hi _ hp0
+    rw [hch0, List.flatten_append, List.foldl_append, hst1] at c2
+    simp only [List.flatten_cons, List.flatten_nil, List.append_nil, List.foldl_append] at c2
+    have h2' := h2
+    simp only [List.foldl_append] at h2'
+    rw [h2'] at c2
+    generalize clientStep so co o s (.ent path user false m t a d) = s1 at c1 c2 ⊢
+    have hmono : DirMono s.st.fs (st1.fs.set (q ++ [n]) (.file (overMode o om (m &&& RCP_MODEMASK))
+        (if f1.setimes then some f1.mt else none) d)) := by
+      rw [hfs1]
+      exact dirMono_set_same _ hold rfl
+    refine ⟨c1, ⟨{ f1 with setimes := false }, ?_, (fun e => by cases e), hf1t⟩, ?_, ?_,
+      .ack :: .ack :: (if o.preserve then [Reply.ack] else []), ?_, ?_⟩
+    · rw [c2]
+      refine ⟨rfl, rfl, hat1.isdir, ?_, hmono _ hat.dir, verifyOk_mono hmono hat.ver, hat1.us⟩
+      show resolve _ o.cwd f1.targ = some q
+      rw [hf1t]
+      exact resolve_mono hmono hat.res
+    · rw [c2]
+      show st1.fs.set (q ++ [n]) _ = _
+      simp only [dFs, hold]
+      rw [hfs1]
+      by_cases hpp : o.preserve = true
+      · have hs1 : f1.setimes = true := by rw [hf1s]; exact hpp
+        simp only [hs1, hpp, ↓reduceIte, hf1m hpp]
+      · have hpp' : o.preserve = false := by simpa using hpp
+        have hs1 : f1.setimes = false := by rw [hf1s]; exact hpp'
+        simp only [hs1, hpp', Bool.false_eq_true, ↓reduceIte]
+    · rw [c2]
+      exact hmono
+    · rw [c2]
+      show Reply.ack :: Reply.ack :: st1.out = _
+      rw [hout1]
+      simp
+    · cases o.preserve <;> exact ⟨by decide, by decide, by decide⟩
   | blockedFile m t a d =>
     simp only [DOk] at hok
     obtain ⟨hnm, hnb, ht, ha, hd, dm, ddt, hblk⟩ := hok
@@ -379,6 +473,35 @@ theorem session_dsrcs (hc : CntOk o) (hnf : o.fsize = none) (so : SOpts) (co : C
 def classifyTop (so : SOpts) (fs : FS) (D : Path) : List (Str × Tree) → List (Str × DTree)
   | [] => []
   | (p, t) :: r => (p, classifyD fs D (sentName so p true) t) :: classifyTop so fs D r
+
+theorem classifyTop_names (so : SOpts) (fs : FS) (D : Path) (srcs : List (Str × Tree)) (x : Str × DTree)
+    (hx : x ∈ classifyTop so fs D srcs) : ∃ t, (sentName so x.1 true, t) ∈ namedSrcs so srcs := by
+  induction srcs with
+  | nil => simp [classifyTop] at hx
+  | cons pt r ih =>
+    obtain ⟨p, t⟩ := pt
+    simp only [classifyTop, List.mem_cons] at hx
+    rcases hx with rfl | hx
+    · exact ⟨t, by simp [namedSrcs]⟩
+    · obtain ⟨t', ht'⟩ := ih hx
+      exact ⟨t', by simp only [namedSrcs]; exact List.mem_cons_of_mem _ ht'⟩
+
+/-- **Whatever the target holds** (a file system without symbolic links in which what exists lies in directories that
+exist), sources in the domain of `copy_roundtrip` are in the domain of `session_dsrcs` once classified against it -/
+theorem dTopOk_classify (so : SOpts) {fs : FS} (hcl : FsClosed fs) (budget : Nat) (D : Path) (srcs : List (Str × Tree))
+    (hsrc : SrcsOk so srcs) (hgood : GoodKids budget (namedSrcs so srcs)) :
+    DTopOk so budget fs D (classifyTop so fs D srcs) := by
+  induction srcs with
+  | nil => trivial
+  | cons pt r ih =>
+    obtain ⟨p, t⟩ := pt
+    simp only [SrcsOk] at hsrc
+    simp only [namedSrcs, GoodKids] at hgood
+    simp only [classifyTop, DTopOk]
+    refine ⟨hsrc.1, dOk_classify hcl budget D _ t hgood.1 hsrc.2.1, ?_, ih hsrc.2.2 hgood.2.2⟩
+    intro x hx
+    obtain ⟨t', ht'⟩ := classifyTop_names so fs D r x hx
+    exact hgood.2.1 _ ht'
 
 theorem classifyTop_srcs (so : SOpts) (fs : FS) (D : Path) (srcs : List (Str × Tree)) :
     dTopSrcs (classifyTop so fs D srcs) = srcs := by
